@@ -20,7 +20,7 @@ Qs == << [e |-> [op |-> "not", e |-> EQ(1, 2)], gb |-> <<2>>],
 
 GInit == /\ w = (1 :> [kind |-> "mem", rows |-> R1, done |-> TRUE] @@ 2 :> [kind |-> "big", rows |-> R2, done |-> TRUE])
          /\ files = (1 :> [kind |-> "index", f |-> FileOf(R1), ver |-> 1] @@ 2 :> [kind |-> "index", f |-> FileOf(R2), ver |-> 1])
-         /\ ix = (1 :> [open |-> TRUE, mode |-> "ondemand", f |-> FileOf(R1)] @@ 2 :> [open |-> TRUE, mode |-> "preload", f |-> FileOf(R2)])
+         /\ ix = (1 :> [open |-> TRUE, mode |-> "ondemand", f |-> FileOf(R1), obs |-> 0] @@ 2 :> [open |-> TRUE, mode |-> "preload", f |-> FileOf(R2), obs |-> 0])
          /\ qobj = [i \in DOMAIN Qs |-> [e |-> Qs[i].e, gb |-> Qs[i].gb, scratch |-> <<>>]]
          /\ resp = R("init")
          /\ hist = <<>>
